@@ -6,7 +6,6 @@ import (
 	"go/constant"
 	"go/token"
 	"go/types"
-	"sort"
 	"strings"
 
 	"goblcheck/core"
@@ -185,7 +184,7 @@ func C07(c *core.Ctx) {
 			return true
 		})
 	}
-	if nSep < 2 {
+	if nSep < 1 {
 		c.Ob("C07-R3", "UNRESOLVED:separator-loops", token.NoPos, false, fmt.Sprintf("only %d loops writing separators found in c14n", nSep))
 	}
 
@@ -413,74 +412,168 @@ func c07Tables(c *core.Ctx) {
 		c.Ob("C07-R4", "UNRESOLVED:c14n.encodeString", token.NoPos, false, "function not found")
 		return
 	}
-	var sw *ast.SwitchStmt
-	ast.Inspect(fd.Decl.Body, func(n ast.Node) bool {
-		if s, ok := n.(*ast.SwitchStmt); ok && s.Tag != nil {
-			sw = s
-		}
-		return true
-	})
-	if sw == nil {
-		c.Undecided("C07-R4", fd.Name()+"#escapes", fd.Decl.Pos(), "escape switch not found")
+	// The escapes, by finite abstract evaluation: one iteration of the loop over the
+	// input is run for each ASCII byte, with the table and the hex digits as found
+	// above; what it writes to the buffer and where it leaves the two positions
+	// (current, start of the pending run) is compared with README §8.
+	sig := fd.Obj.Type().(*types.Signature)
+	if sig.Params().Len() != 1 {
+		c.Undecided("C07-R4", fd.Name()+"#escapes", fd.Decl.Pos(), "unexpected signature")
 		return
 	}
-	tag := core.VarOf(info, sw.Tag)
-	want := map[int]int{'"': '"', '\\': '\\', '\b': 'b', '\t': 't', '\n': 'n', '\f': 'f', '\r': 'r'}
-	got := map[int]int{}
-	defaultOK := false
-	for _, cc := range sw.Body.List {
-		clause := cc.(*ast.CaseClause)
-		// what is written?
-		var written []ast.Expr
-		var writes []*ast.CallExpr
-		for _, s := range clause.Body {
-			if es, ok := s.(*ast.ExprStmt); ok {
-				if call, ok := es.X.(*ast.CallExpr); ok && len(call.Args) == 1 {
-					written = append(written, call.Args[0])
-					writes = append(writes, call)
+	sParam := sig.Params().At(0)
+	var loopBody *ast.BlockStmt
+	var idxVar, valVar *types.Var
+	var loopPos token.Pos
+	for _, st := range fd.Decl.Body.List {
+		switch x := st.(type) {
+		case *ast.ForStmt:
+			if as, ok := x.Init.(*ast.AssignStmt); ok && len(as.Lhs) == 1 && loopBody == nil {
+				loopBody, idxVar, loopPos = x.Body, core.VarOf(info, as.Lhs[0]), x.Pos()
+			}
+		case *ast.RangeStmt:
+			if core.VarOf(info, x.X) == sParam && loopBody == nil {
+				// ranging over a string yields runes: a different algorithm, not evaluated here
+			}
+		}
+	}
+	if loopBody == nil || idxVar == nil {
+		c.Undecided("C07-R4", fd.Name()+"#escapes", fd.Decl.Pos(), "the loop over the input bytes was not found")
+		return
+	}
+	_ = valVar
+	table := map[int64]bool{}
+	if lit != nil {
+		for _, el := range lit.Elts {
+			if kv, ok := el.(*ast.KeyValueExpr); ok {
+				ktv, vtv := info.Types[kv.Key], info.Types[kv.Value]
+				if ktv.Value != nil && vtv.Value != nil {
+					k, _ := constant.Int64Val(ktv.Value)
+					table[k] = constant.BoolVal(vtv.Value)
 				}
 			}
 		}
-		if clause.List == nil {
-			// default: "u00" + hex[b>>4] + hex[b&0xF]
-			if len(written) == 3 {
-				s0, ok0 := foldString(info, written[0])
-				hi := hexIndex(info, written[1], tag, token.SHR, 4)
-				lo := hexIndex(info, written[2], tag, token.AND, 15)
-				defaultOK = ok0 && s0 == "u00" && hi && lo
+	}
+	short := map[int64]byte{'"': '"', '\\': '\\', '\b': 'b', '\t': 't', '\n': 'n', '\f': 'f', '\r': 'r'}
+	var diffShort, diffLong, diffSafe []string
+	undecided := ""
+	for b := int64(0); b < 128 && undecided == ""; b++ {
+		b := b
+		var out []byte
+		ev := &core.AbsEval{Info: info}
+		ev.Branch = func(br *ast.BranchStmt) ([]any, bool) { return nil, br.Tok == token.CONTINUE && br.Label == nil }
+		ev.Atom = func(e ast.Expr) (any, bool) {
+			switch x := ast.Unparen(e).(type) {
+			case *ast.Ident:
+				if v, ok := info.Uses[x].(*types.Var); ok && v.Name() == "hex" && v.Parent() == v.Pkg().Scope() && hexFound {
+					return hexVal, true
+				}
+			case *ast.IndexExpr:
+				if core.VarOf(info, x.X) == sParam {
+					return b, true
+				}
+				if v := core.VarOf(info, x.X); v != nil && v.Name() == "safeSet" && v.Parent() == v.Pkg().Scope() {
+					if iv, ok := ev.Eval(x.Index); ok {
+						if n, isN := iv.(int64); isN {
+							return table[n], true
+						}
+					}
+				}
 			}
-			continue
+			return nil, false
 		}
-		for _, ce := range clause.List {
-			ktv, ok := info.Types[ce]
-			if !ok || ktv.Value == nil || len(written) != 1 {
-				continue
+		ev.Effect = func(call *ast.CallExpr) bool {
+			fn := core.Callee(info, call)
+			if fn == nil || fn.Pkg() == nil || fn.Pkg().Path() != "bytes" || len(call.Args) != 1 {
+				return fn != nil // a call through a value: cannot tell what it writes
 			}
-			k, _ := constant.Int64Val(ktv.Value)
-			if core.VarOf(info, written[0]) == tag && tag != nil {
-				got[int(k)] = int(k) // writes the character itself
-			} else if wtv, ok := info.Types[written[0]]; ok && wtv.Value != nil {
-				w, _ := constant.Int64Val(wtv.Value)
-				got[int(k)] = int(w)
+			switch fn.Name() {
+			case "WriteByte", "WriteString", "WriteRune", "Write":
+			default:
+				return true
+			}
+			arg := ast.Unparen(call.Args[0])
+			if se, ok := arg.(*ast.SliceExpr); ok && core.VarOf(info, se.X) == sParam {
+				return true // the pending run of unescaped text
+			}
+			v, ok := ev.Eval(arg)
+			if !ok {
+				return false
+			}
+			switch w := v.(type) {
+			case int64:
+				out = append(out, byte(w))
+			case string:
+				out = append(out, w...)
+			default:
+				return false
+			}
+			return true
+		}
+		// integer locals set to constants before the loop (the start of the pending run)
+		var startVars []*types.Var
+		for _, st := range fd.Decl.Body.List {
+			if st.Pos() >= loopPos {
+				break
+			}
+			if as, ok := st.(*ast.AssignStmt); ok && len(as.Lhs) == len(as.Rhs) {
+				for i, l := range as.Lhs {
+					if v := core.VarOf(info, l); v != nil {
+						if tv, ok := info.Types[as.Rhs[i]]; ok && tv.Value != nil && tv.Value.Kind() == constant.Int {
+							n, _ := constant.Int64Val(tv.Value)
+							ev.Set(v, n)
+							startVars = append(startVars, v)
+						}
+					}
+				}
+			}
+		}
+		ev.Set(idxVar, int64(1))
+		_, _, ok := ev.RunList(loopBody.List)
+		iv, isN := ev.VarValue(idxVar).(int64)
+		if !ok || !isN {
+			undecided = fmt.Sprintf("one iteration could not be evaluated for byte 0x%02X", b)
+			break
+		}
+		startMoved := false
+		for _, v := range startVars {
+			if n, isN := ev.VarValue(v).(int64); isN && n == 2 {
+				startMoved = true
+			}
+		}
+		safe := b >= 0x20 && b != '"' && b != '\\'
+		switch {
+		case safe:
+			if len(out) != 0 || iv != 2 || startMoved {
+				diffSafe = append(diffSafe, fmt.Sprintf("0x%02X", b))
+			}
+		default:
+			want := []byte{'\\'}
+			if sc, has := short[b]; has {
+				want = append(want, sc)
+			} else {
+				want = append(want, 'u', '0', '0', "0123456789ABCDEF"[b>>4], "0123456789ABCDEF"[b&15])
+			}
+			if string(out) != string(want) || iv != 2 || !startMoved {
+				d := fmt.Sprintf("0x%02X→%q (spec %q)", b, out, want)
+				if iv != 2 || !startMoved {
+					d += " [positions not advanced past the byte]"
+				}
+				if _, has := short[b]; has {
+					diffShort = append(diffShort, d)
+				} else {
+					diffLong = append(diffLong, d)
+				}
 			}
 		}
 	}
-	var diffs []string
-	for k, w := range want {
-		if got[k] != w {
-			diffs = append(diffs, fmt.Sprintf("%q→%q (spec %q)", rune(k), rune(got[k]), rune(w)))
-		}
+	if undecided != "" {
+		c.Undecided("C07-R4", fd.Name()+"#escapes", fd.Decl.Pos(), undecided)
+		return
 	}
-	for k := range got {
-		if _, ok := want[k]; !ok {
-			diffs = append(diffs, fmt.Sprintf("extra %q", rune(k)))
-		}
-	}
-	sort.Strings(diffs)
-	c.Ob("C07-R4", fd.Name()+"#two-character-escapes", sw.Pos(), len(diffs) == 0, "the two-character escapes differ from README §8.1: "+strings.Join(diffs, ", "))
-	c.Ob("C07-R4", fd.Name()+"#u00XX-fallback", sw.Pos(), defaultOK, "the fallback escape is not `u00` followed by hex[b>>4] and hex[b&0xF] from the upper-case hex table (README §8.2: six-character \\u00XX upper-case)")
-	// the backslash precedes the switch
-	_ = tag
+	c.Ob("C07-R4", fd.Name()+"#two-character-escapes", loopPos, len(diffShort) == 0, "the two-character escapes differ from README §8.1: "+strings.Join(diffShort, ", "))
+	c.Ob("C07-R4", fd.Name()+"#u00XX-fallback", loopPos, len(diffLong) == 0, "the fallback escape is not `\\u00` followed by two upper-case hex digits (README §8.2): "+strings.Join(diffLong, ", "))
+	c.Ob("C07-R4", fd.Name()+"#plain-bytes-untouched", loopPos, len(diffSafe) == 0, "bytes that need no escape are not left for the pending run as they are: "+strings.Join(diffSafe, " "))
 }
 
 // hexIndex recognises hex[tag OP k].
